@@ -90,6 +90,16 @@ class SkipTo(Box):
         return '->' + self.exp._pretty(lean=lean)
 
 
+def _contains_cut(exp: Model) -> bool:
+    # NOTE: [x] is x only when x cannot fail, and an optional or
+    # a closure does fail when its expression fails after a cut
+    from .basic import Cut
+
+    return isinstance(exp, Cut) or any(
+        _contains_cut(c) for c in exp.children() if isinstance(c, Model)
+    )
+
+
 @nodedataclass
 class Optional(Box):
     def _parse(self, ctx: Ctx) -> Any:
@@ -121,9 +131,11 @@ class Optional(Box):
         from .closure import Closure, Gather, Join
 
         exp = self.exp.optimized()
-        if isinstance(
-            exp, Optional | Closure | Join | Gather
-        ) and 'Positive' not in typename(exp):
+        if (
+            isinstance(exp, Optional | Closure | Join | Gather)
+            and 'Positive' not in typename(exp)
+            and not _contains_cut(exp)
+        ):
             return exp
         new = copy(self)
         new.exp = exp
